@@ -77,7 +77,7 @@ Proof.
     repeat split. cbn [t_dirty]. intros x Hx. apply in_or_app. right. exact Hx. }
   destruct o as [l|h0 k v|h0 k|h0 k|h0|h0|h0| | |]; cbn [astep ends] in *; try exact Hself.
   - (* begin *) cbn [fst]. unfold aopen_find in *. cbn [a_open]. rewrite find_app', Hf. exists t. split; [reflexivity | apply tx_le_refl].
-  - destruct (N.eqb k 0); [exact Hself|]. destruct (areader a h0); [apply Hw | exact Hself].
+  - destruct (areader a h0); [|exact Hself]. destruct (N.eqb k 0); [exact Hself | apply Hw].
   - destruct (areader a h0); [apply Hw | exact Hself].
   - destruct (areader a h0); exact Hself.
   - destruct (areader a h0); exact Hself.
@@ -171,7 +171,7 @@ Lemma wrote_step a o h k :
 Proof.
   intros Hh He Hw.
   destruct o as [l|h0 k0 v|h0 k0|h0 k0|h0|h0|h0| | |]; cbn [astep ends] in *; try exact Hw.
-  - destruct (N.eqb k0 0); [exact Hw|]. destruct (areader a h0); [apply wrote_awrite; assumption | exact Hw].
+  - destruct (areader a h0); [|exact Hw]. destruct (N.eqb k0 0); [exact Hw | apply wrote_awrite; assumption].
   - destruct (areader a h0); [apply wrote_awrite; assumption | exact Hw].
   - destruct (areader a h0); exact Hw.
   - destruct (areader a h0); exact Hw.
@@ -228,7 +228,7 @@ Proof.
   { intros f ks. induction ks as [|k0 ks IH]; intros a0 H0; [auto|]. cbn [fold_left].
     destruct (Hw a0 0 k0 (f k0) H0) as [N1 I1]. destruct (IH _ N1) as [N2 I2]. split; [exact N2 | auto]. }
   destruct o as [l|h0 k0 v|h0 k0|h0 k0|h0|h0|h0| | |]; cbn [astep]; try (split; [exact Hnd | auto]; fail).
-  - destruct (N.eqb k0 0); [auto|]. destruct (areader a h0); [apply Hw; exact Hnd | auto].
+  - destruct (areader a h0); [|auto]. destruct (N.eqb k0 0); [auto | apply Hw; exact Hnd].
   - destruct (areader a h0); [apply Hw; exact Hnd | auto].
   - destruct (areader a h0); auto.
   - destruct (areader a h0); auto.
